@@ -69,6 +69,18 @@ def make_replayer(ck, mods):
         label = name.split("/")[0]
         qual = label.split("@")[0].split("[")[0]
         cls = ".".join(qual.split(".")[:-1])
+        if qual.count(".") == 1:
+            # a module-level function over plain values (bytes / str / int / bool parameters)
+            con = reg.contract(qual)
+            if con is None or not con.params or any(t[0] not in ("int", "bool", "bytes", "str", "str1") for t in con.params.values()):
+                return None
+            ev = entry_values(model)
+            payload = {"func": qual, "args": {p: typed(pty, p, ev) for p, pty in con.params.items()}, "kind": rec["kind"], "clause": rec["clause"],
+                       "exc": name.rsplit("raises:", 1)[1] if rec["kind"] == "raises" else None}
+            rep = ck.native("function_replay", payload, timeout=60, module="model")
+            if isinstance(rep, dict):
+                rep["payload"] = payload
+            return rep
         if cls not in BUILDABLE:
             return None
         con = reg.contract(qual)
